@@ -445,3 +445,26 @@ def gen(rng, n_books=None, n_formulas=None, forms=None, whole_col=False,
             slots[(b, s)] = k + 1
     desc['formula_cells'] = [list(m) for m in made]
     return desc
+
+
+def add_adjacent_arrays(rng, desc):
+    """Two array formulas side by side (columns N, O) on the first sheet of the
+    last book, and readers - on the last sheet of the first book - of a
+    rectangle that lies over both without their anchor cells.  Returns the
+    reader cells [(b, s, c, r)]."""
+    bb = len(desc['books']) - 1
+    r0 = rng.choice((1, 1, 7))
+    cells = desc['books'][bb]['sheets'][0]['cells']
+    cells['N%d' % r0] = {'f': ['bin', '*', ['rng', bb, 0, 1, 1, 1, 3], ['lit', 2.0]],
+                         'arr': [14, r0, 14, r0 + 2]}
+    cells['O%d' % r0] = {'f': ['bin', '+', ['rng', bb, 0, 2, 1, 2, 3], ['lit', 1.0]],
+                         'arr': [15, r0, 15, r0 + 2]}
+    s0 = len(desc['books'][0]['sheets']) - 1
+    rd = desc['books'][0]['sheets'][s0]['cells']
+    rd['M1'] = {'f': ['call', 'SUM', [['rng', bb, 0, 14, r0 + 1, 15, r0 + 2]]]}
+    rd['M2'] = {'f': ['call', 'MAX', [['rng', bb, 0, 14, r0 + 2, 15, r0 + 2]]]}
+    out = [(0, s0, 13, 1), (0, s0, 13, 2)]
+    desc['formula_cells'] = list(desc.get('formula_cells', [])) + [list(k) for k in out] + [
+        [bb, 0, 14, r0 + j] for j in range(3)] + [[bb, 0, 15, r0 + j] for j in range(3)]
+    return out
+
